@@ -330,6 +330,7 @@ class Ctx:
 
     # ---- Mode T -------------------------------------------------------
     sched_policy = 0
+    stall = None            # callable() -> ns of extra delay after a task was woken (Mode T fault: slow task)
     _end_reason = None
     in_sched = False
     preempt_at = ()         # line-event counts at which a task is pre-empted
@@ -548,4 +549,10 @@ class Ctx:
         self._dispatch(me)
         me.pred = None
         me.deadline = None
-        return not me.timed_out
+        ok = not me.timed_out
+        if self.stall is not None and ok and what != "stall":
+            # a woken thread is not necessarily scheduled at once (slow / stalled task)
+            d = self.stall()
+            if d:
+                self._wait_t(lambda: False, self.now + d, "stall")
+        return ok
